@@ -100,7 +100,7 @@ class DendrogramPlotter(object):
         """
 
         # Get the lines for the dendrogram
-        lines = self.get_lines(structures=structure, **kwargs)
+        lines = self.get_lines(structures=structure, subtree=subtree, **kwargs)
 
         # Add the lines to the axes
         ax.add_collection(lines)
@@ -189,13 +189,12 @@ class DendrogramPlotter(object):
             structures = list(self.dendrogram.all_structures)
         # Case 2: one structure is selected, and subtree is True
         else:
+            if not isinstance(structures, (list, tuple)):
+                structures = [structures]
+            structures = [self.dendrogram[s] if isinstance(s, (int, np.integer)) else s
+                          for s in structures]
             if subtree:
-                if isinstance(structures, int):
-                    structures = [structures]
-                if type(structures[0]) is int:
-                    structure = self.dendrogram[structures[0]]
-                else:
-                    structure = structures[0]
+                structure = structures[0]
                 structures = structure.descendants + [structure]
         # Case 3: subtree is False (do nothing special to `structures`)
 
